@@ -486,8 +486,16 @@ def c10(run):
                             dict(spec="Spec", constants={"MaxSteps": n2, "Focus": '"damage"'}, invariants=invs),
                             "C10", workers=4, threads=8, timeout=7000)
     run.add(tlc, s)
+    # the missing / blocked directory appears while the context is alive, and a learning commit follows ("loses at most that one choice")
+    n3 = 4 if run.quick() else 6
+    tlc, s = run_tlc_replay(run, "MC_Fault_repair", "MC_Fault.tla",
+                            dict(spec="Spec", constants={"MaxSteps": n3, "Focus": '"repair"'}, invariants=invs),
+                            "C10", workers=4, threads=8, timeout=7000)
+    run.add(tlc, s)
     run.extra["level"] = "model_checking"
-    run.rule = ("TLC enumerates environments (selection file x auto-correct file in {absent, valid, empty, torn, wrongshape, emptyentries} x directory in "
+    run.rule = ("(third instance: every event sequence of length %d in which the missing / blocked directory appears under the live context and that ends in a "
+                "learning commit: the save completes and the store holds the choice)  " % n3)
+    run.rule += ("TLC enumerates environments (selection file x auto-correct file in {absent, valid, empty, torn, wrongshape, emptyentries} x directory in "
                 "{ok, missing, blocked}) x every event sequence of length %d over {new, type, learning commit, crash in the middle of a save, restart, "
                 "update-engine}, checks Robust / LoadedIsOnDisk / LosesAtMostNew / SaveLeavesValid on the model and emits every scenario; the harness "
                 "concretises torn as EVERY proper byte prefix of a store the engine itself wrote (all crash points of the non-atomic save), wrongshape as a "
@@ -538,6 +546,8 @@ def fcands(run, focus, site):
 def c15(run):
     run.sites = {"fixedlist"}
     run.rule = fcands(run, "C15", "fixedlist")
+    # fixed-layout lists inside whole sessions (old vowel order with a waiting sign, options switched by update-engine, words typed again)
+    shadow_trace(run, "C15", "fixedlist")
     design_fixedlist(run, ["FFirstIsWord", "FAtMostNine", "FNoRepeats", "FNonDecreasing", "FEnglishLast"], 2 if run.quick() else 3, 3 if run.quick() else 12)
     run.assumptions += ["dictionary facts from the JSON re-read by the harness; 'ignoring punctuation and non-joiners' = removing ASCII punctuation, danda and ZWNJ",
                         "the recorder proposes the word; the trace specification compares with its own split (':' is punctuation in fixed mode) and skips on disagreement"]
